@@ -1079,3 +1079,19 @@ def mentions_field_deep(body, e, adt, field, depth=0):
                 if src is not x and mentions_field_deep(body, src, adt, field, depth + 1):
                     return True
     return False
+
+
+def variant_test(e):
+    """If e is `x == Variant` / `x != Variant` (derived PartialEq against a field-less variant constant): (x, 'Variant', is_eq)."""
+    if e[0] != "call" or len(e[2]) != 2 or not (e[1].endswith("PartialEq::eq") or e[1].endswith("PartialEq::ne")):
+        return None
+    for i in (0, 1):
+        c = strip(e[2][i])
+        name = None
+        if c[0] == "agg" and c[2] and not c[3]:
+            name = c[2]
+        elif c[0] == "const" and c[1].get("variant"):
+            name = c[1]["variant"]
+        if name:
+            return strip(e[2][1 - i]), name, e[1].endswith("::eq")
+    return None
